@@ -214,7 +214,7 @@ def collect_tags(x, acc):
             collect_tags(v, acc)
 
 
-def make_case(rng, host, depth, family, nsteps, name, budget=8):
+def make_case(rng, host, depth, family, nsteps, name, budget=8, p_bad=0.0):
     ids = Ids()
     g = Gen(rng, ids, max_depth=depth, family=family, script_budget=budget)
     direct = host in ("direct", "stream")
@@ -236,7 +236,8 @@ def make_case(rng, host, depth, family, nsteps, name, budget=8):
            "p_late": rng.choice([0.0, 0.1, 0.3]),
            "p_abort": rng.choice([0.0, 0.0, 0.1]) if host != "stream" else 0.0,
            "p_noop": 0.0 if direct else 0.15,
-           "p_run": 0.0 if direct else 0.1}
+           "p_run": 0.0 if direct else 0.1,
+           "p_bad": p_bad if host.startswith("bridge") else 0.0}
     return {"name": name, "host": host, "progs": progs, "follow": follow,
             "steps": [{"a": "run", "p": 0}], "policy": pol}
 
@@ -250,12 +251,13 @@ def main():
     ap.add_argument("--family", default="mixed")
     ap.add_argument("--steps", type=int, default=14)
     ap.add_argument("--budget", type=int, default=8)
+    ap.add_argument("--bad", type=float, default=0.0)
     a = ap.parse_args()
     rng = random.Random(a.seed)
     hosts = a.host.split(",")
     for i in range(a.n):
         host = hosts[i % len(hosts)]
-        c = make_case(rng, host, a.depth, a.family, a.steps, f"s{a.seed}-{i}", a.budget)
+        c = make_case(rng, host, a.depth, a.family, a.steps, f"s{a.seed}-{i}", a.budget, a.bad)
         sys.stdout.write(json.dumps(c) + "\n")
 
 
